@@ -1,1 +1,14 @@
 import ThriftVerif.Props.C10
+#print axioms Props.C10.wire_tables_sound
+#print axioms Props.C10.blength_exact
+#print axioms Props.C10.fast_write_into_blength
+#print axioms Props.C10.fast_write_is_std
+#print axioms Props.C10.fast_write_decodes
+#print axioms Props.C10.fast_read_refines_std
+#print axioms Props.C10.fast_read_eq_std_on_written
+#print axioms Props.C10.fast_read_tolerates_unknown
+#print axioms Props.C10.fast_read_no_panic
+#print axioms Props.C10.gopkg_skip_not_bounded
+#print axioms Props.C10.fast_read_panics_on_truncation
+#print axioms Props.C10.fast_read_panics_on_type_byte
+#print axioms Props.C10.fast_write_optional_binary_default_differs
